@@ -81,7 +81,7 @@ theorem sampleFastUrban_spec (mean sd : ℝ) (fuel : ℕ) (s r : List ℝ) (x : 
     (hs : CanonAll s) (h : sampleFastUrban mean sd fuel s = some (x, r)) :
     0 ≤ x ∧ x ≤ 2 * mean ∧ r <:+ s := by
   unfold sampleFastUrban at h
-  eloss_simp at h
+  dist_simp at h
   split_ifs at h
   · have hsup := elossGauss_loop_bounds mean sd fuel s r x h
     exact ⟨le_of_lt hsup.1, hsup.2.1, hsup.2.2⟩
@@ -153,7 +153,7 @@ theorem excLevel_spec (xs be res mn vr : ℝ) (s : List ℝ) (res' mn' vr' : ℝ
     contribute when both are above the threshold) and variance Σ_{Σᵢ>8} Σᵢ·Eᵢ²; the result is
     non-negative -/
 theorem sampleExcitationLoss_spec (u : Urban ℝ) (fuel : ℕ) (s r : List ℝ) (x : ℝ)
-    (hb1 : 0 ≤ u.be1) (hb2 : 0 ≤ u.be2) (hx1 : 0 ≤ u.xs1) (hx2 : 0 ≤ u.xs2) (hs : CanonAll s)
+    (hb1 : 0 ≤ u.be1) (hb2 : 0 ≤ u.be2) (hs : CanonAll s)
     (h : sampleExcitationLoss u fuel s = some (x, r)) :
     0 ≤ x ∧ r <:+ s ∧
     ∃ res mn vr s2, 0 ≤ res ∧
@@ -263,7 +263,10 @@ theorem ioniFast_mean_split (xs w : ℝ) (hxs : 8 < xs) (hw : 1 < w) :
     rw [div_lt_iff₀ (by nlinarith)]
     nlinarith
   have hnA0 : 0 < xs * w * (a - 1) / ((w - 1) * a) := by
-    apply div_pos <;> nlinarith
+    have h1 : 0 < a - 1 := by linarith
+    have h2 : 0 < w - 1 := by linarith
+    have h3 : 0 < xs := by linarith
+    positivity
   refine ⟨ha1, haw, hnA0, hnA, ?_, ?_⟩
   · have : 0 < a * Real.log a / (a - 1) := by
       apply div_pos (by positivity) (by linarith)
@@ -274,13 +277,13 @@ theorem ioniFast_mean_split (xs w : ℝ) (hxs : 8 < xs) (hw : 1 < w) :
 
 /-- `sample_ionization_loss` is non-negative -/
 theorem sampleIonizationLoss_nonneg (u : Urban ℝ) (fuel : ℕ) (s r : List ℝ) (x : ℝ)
-    (hE : 1 / 100000 < u.maxEnergy) (hxs : 0 < u.xsIon) (hs : CanonAll s)
+    (hE : 1 / 100000 < u.maxEnergy) (hs : CanonAll s)
     (h : sampleIonizationLoss u fuel s = some (x, r)) : 0 ≤ x ∧ r <:+ s := by
   have hw : 1 < u.maxEnergy / (1 / 100000) := by rw [lt_div_iff₀ (by norm_num)]; linarith
   unfold sampleIonizationLoss at h
   eloss_simp at h
   by_cases h8 : 8 < u.xsIon
-  · simp only [h8, if_true, decide_true] at h
+  · simp only [h8, if_true] at h
     obtain ⟨ha1, haw, hn0, hn1, hmean, _⟩ := ioniFast_mean_split u.xsIon _ h8 hw
     split at h
     · simp at h
@@ -302,7 +305,7 @@ theorem sampleIonizationLoss_nonneg (u : Urban ℝ) (fuel : ℕ) (s r : List ℝ
           exact ⟨by linarith, hsuf3.trans (hsuf2.trans hsuf1)⟩
       · simp only [Option.some.injEq, Prod.mk.injEq] at h
         rw [← h.1, ← h.2]; exact ⟨hr0, hsuf1⟩
-  · simp only [h8, if_false, decide_false] at h
+  · simp only [h8, if_false] at h
     split_ifs at h with hc
     · split at h
       · simp at h
